@@ -158,6 +158,10 @@ int main(int argc, char **argv)
 			return 2;
 		}
 		JudgeOut o = P->judge(plan);
+		if (getenv("VERIF_TWICE")) {
+			JudgeOut o2 = P->judge(plan);
+			fprintf(stderr, "twice: %016lx %016lx\n", (unsigned long)o.hash, (unsigned long)o2.hash);
+		}
 		json j;
 		j["hash"] = o.hash;
 		j["discarded"] = o.discarded;
